@@ -246,6 +246,9 @@ pub fn decode_case(token: &str, policy: &Value, key: &Value, signed_alg: &str, s
 
 // ---------------------------------------------------------------- C11
 pub fn generate_c11(thorough: bool, seed: u64, em: &mut Emitter) {
+    // (0) the key-binding policy handed to Verifier::verify is a Validation as well: its algorithm and audience
+    // are enforced on the KB-JWT, and nothing inside the token (a JWK "alg" member, say) overrides them
+    super::c05::generate_kinds(super::c05::POLICY_KINDS, if thorough { 800 } else { 160 }, seed, em);
     let mut r = Rng::new(seed ^ 0xC11);
     let policies = reachable_policies();
     let steps = steps_alphabet();
@@ -464,6 +467,31 @@ pub fn generate_c04(thorough: bool, seed: u64, em: &mut Emitter) {
                 }
             }
         }
+        // (a4) HMAC keys of every length class (shorter than, equal to and longer than the hash's block size): a token
+        // signed by an independent HMAC implementation under K verifies under K, and the library's own signature
+        // is byte for byte the independent one (no private canonicalisation of the key on either side)
+        if alg.starts_with("HS") {
+            for len in [1usize, 16, 32, 48, 63, 64, 65, 100, 127, 128, 129, 200, 300] {
+                let k: String = (0..len).map(|i| (b'a' + (i % 23) as u8) as char).collect();
+                let key = json!({"kind": "secret", "value": k});
+                let lib_token = sdjwt::encode(&Header::new(algorithm(alg)), &sample_payload(), &KeyForEncoding::from_secret(k.as_bytes())).expect("sign");
+                let segs: Vec<&str> = lib_token.split('.').collect();
+                let signing_input = format!("{}.{}", segs[0], segs[1]);
+                let indep_token = format!("{}.{}", signing_input, indep::b64url_encode(&indep::hmac(alg, k.as_bytes(), signing_input.as_bytes())));
+                let same = indep_token == lib_token;
+                let mut c = decode_case(&indep_token, &no_exp(alg), &key, alg, true, "accept", "accept", true);
+                c["tag"] = json!(if same { "hmac_key_length" } else { "hmac_library_signature_differs_from_rfc2104" });
+                if !same {
+                    // the library signed something else than HMAC(K, input): its own token is then not the issuer-signed
+                    // JWT an independent verifier accepts
+                    c["expect"] = json!("accept");
+                }
+                em.case("decode", c);
+                let mut c2 = decode_case(&lib_token, &no_exp(alg), &key, alg, same, if same { "accept" } else { "reject" }, if same { "accept" } else { "reject" }, true);
+                c2["tag"] = json!("hmac_key_length_library_signed");
+                em.case("decode", c2);
+            }
+        }
         // (b) every key with every configured algorithm
         for kalg in keys::ALL_ALGS {
             for palg in keys::ALL_ALGS {
@@ -504,7 +532,10 @@ fn header_value(r: &mut Rng, field: &str, class: usize) -> Value {
                            "application/a/b", "APPLICATION/JSON", "application/", "/json", "application/json; charset=utf-8", " json"],
         "jku" | "x5u" => &["https://issuer.example/jwks.json", "HTTPS://Issuer.Example:443/a/../jwks", "http://localhost/%7Ekeys", "https://issuer.example/jwks.json#frag"],
         "kid" => &["2024-key-1", "0", "key id with spaces", "did:example:123#key-1", "KEY", "key"],
-        "x5t" | "x5t_s256" => &["dGh1bWJwcmludA", "dGh1bWJwcmludA==", "DGH1BWJWCMLUDA", "-_-_"],
+        // 27 and 43 characters: what base64url of a SHA-1 / SHA-256 thumbprint looks like - under either member
+        "x5t" | "x5t_s256" => &["dGh1bWJwcmludA", "dGh1bWJwcmludA==", "DGH1BWJWCMLUDA", "-_-_",
+                                "2jmj7l5rSw0yVb_vlWAYkK_YBwk", "47DEQpj8HBSa-_TImW-5JCeuQeRkm5NMpJWZG3hSuFU",
+                                "2jmj7l5rSw0yVb_vlWAYkK_YBwk=", "47DEQpj8HBSa-_TImW-5JCeuQeRkm5NMpJWZG3hSuFU="],
         _ => &["exp", "b64", "http://example.invalid/UNDEFINED", "EXP"],
     };
     // certificate chain entries are standard base64 of DER: a SEQUENCE (0x30 0x82 len len ...), "MII..." in text
